@@ -17,9 +17,12 @@ ID = "C05"
 READY = True
 RULE = ("routing: acyclic device graphs with 2-7 devices and 1-2 playfields, available_balls 0-2 per device, queries "
         "path / available ball / setup-or-queue for random (device, target) pairs; non-trivial = path of >= 3 hops "
-        "or a queued request.  attempts: simulated machines as in C04 with fault-heavy profiles (k consecutive stuck "
+        "or a queued request.  attempts: simulated machines as in C04 (two sources into one target, two-ball staging "
+        "device, entrance-counted lock, double kick-outs, leaks) with fault-heavy profiles (k consecutive stuck "
         "ejects, balls falling back, confirmations after the timeout, lost balls) and max_eject_attempts 0/2/3/4; "
-        "non-trivial = at least one failed attempt")
+        "non-trivial = at least one failed attempt.  game: a real game (start button, ball start) with a ball_save "
+        "(unlimited, eject_delay 0.8-2.5 s) and a multiball as request sources; two balls in play, two drains "
+        "0.1 s .. eject_delay+0.6 s apart, stuck ejects; non-trivial = at least two balls saved")
 TRUSTED_BASE = [
     "Coq 8.16.1 kernel (coqc), vm_compute for the correspondence; no native_compute",
     "axioms: none",
@@ -263,6 +266,8 @@ def nontrivial_route(case, out):
 # ------------------------------------------------------------------------------------------------
 # (b) attempts
 def gen_att(rng, tier, i):
+    if rng.random() < 0.4:
+        return bc.gen_case(rng, tier, i, profile=rng.choice(bc.TEMPLATES + ["double_kick", "cap2_mid_eject"]))
     c = bc.gen_case(rng, tier, i, profile=rng.choice(["faulty", "faulty", "busy"]))
     t = c["topo"]
     t["att_trough"] = rng.choice([0, 2, 3, 4])
@@ -398,12 +403,35 @@ def oracle_att(case, out):
                 t = v["target"]
                 if st in ("idle", "eject_broken"):
                     continue
-                if st == "waiting_for_ball" and truth["dev"][d] == 0:
-                    continue        # nothing to eject: by design it waits for a ball
+                if st == "waiting_for_ball" and truth["dev"][d] == 0 and v["sources"]:
+                    # nothing to eject: by design it waits for a ball from upstream -- unless every source sits idle
+                    # with nothing queued although it could serve
+                    lazy = all(snap[s_][3] == "idle" and fin["idle"][s_] and snap[s_][5] == 0 for s_ in v["sources"]) and \
+                        any(snap[s_][2] > 0 and truth["dev"][s_] > 0 for s_ in v["sources"])
+                    if not lazy:
+                        continue
                 if st == "waiting_for_target_ready" and t in devs and truth["dev"][t] >= devs[t]["cap"]:
                     continue        # target is full (e.g. it is broken with a ball inside)
-                fails.append({"sig": "stuck-device", "what": "world quiet but %s stays in state %s (holds %d balls)" %
-                              (d, st, truth["dev"][d])})
+                if st == "waiting_for_target_ready" and t in devs and any(
+                        it[0] == "P" and it[1] == "balldevice_%s_ball_missing" % s2
+                        for s2 in devs[t]["sources"] if s2 != d for it in out["log"]):
+                    # another source's ball towards the same target was booked as lost: its incoming-ball entry was
+                    # removed, but nobody wakes the sources waiting in wait_for_ready_to_receive
+                    # (fixes/C05-wake-source-when-incoming-ball-removed.patch)
+                    fails.append({"sig": "stuck-waiting-for-slot-of-lost-incoming-ball", "what": "%s waits for room in "
+                                  "%s for ever although %s has room: the slot was promised to a ball of another source "
+                                  "that was booked as lost" % (d, t, t)})
+                    continue
+                if st == "waiting_for_ball" and truth["dev"][d] == 0 and fin.get("spont_loss", {}).get(d):
+                    # the ball left the idle device uncommanded and an eject was requested before MPF had booked the loss
+                    # (idle_missing_ball_timeout): "Lost ball between ejects. Ignoring." -- the eject waits for ever
+                    fails.append({"sig": "stuck-after-uncommanded-ball-loss", "what": "%s waits for a ball for ever: its "
+                                  "ball left uncommanded shortly before the eject was requested; counted_balls=%d, "
+                                  "physically empty" % (d, snap[d][0])})
+                    continue
+                fails.append({"sig": "stuck-device", "what": "world quiet but %s stays in state %s (holds %d balls; "
+                              "target %s holds %s; sources %s)" %
+                              (d, st, truth["dev"][d], t, truth["dev"].get(t, "-"), v["sources"])})
             # a queued request that could be served
             if snap["plunger"][5] > 0 and snap["trough"][2] > 0 and snap["trough"][3] == "idle" and \
                     snap["plunger"][3] in ("idle", "waiting_for_ball"):
@@ -412,13 +440,45 @@ def oracle_att(case, out):
     return fails
 
 
+def gen_game(rng, tier, i):
+    return bc.gen_case(rng, tier, i, profile="save_twice")
+
+
+def oracle_game(case, out):
+    """every ball the game counts as in play (ball start, multiball add, ball save) is physically delivered"""
+    fails = oracle_att(case, out)
+    fin = out.get("final")
+    if out.get("error") or out.get("sim_error") or not fin or not fin.get("game"):
+        return fails
+    g, snap, truth = fin["game"], fin["snap"], fin["truth"]
+    devs = bc.device_table(case["topo"])
+    if g["running"] and not truth["transit"] and all(snap[d][3] != "eject_broken" for d in devs):
+        physical = truth["loose"] + truth["dev"]["plunger"]
+        if physical < g["balls_in_play"]:
+            saves = sum(e[1] for e in g["events"] if e[0] == "ball_save_bs_saving_ball")
+            fails.append({"sig": "ball-in-play-not-delivered", "what": "world quiet: game.balls_in_play=%d but only %d "
+                          "balls are on the playfield / in the plunger (%d balls were saved by the ball save)" %
+                          (g["balls_in_play"], physical, saves)})
+        elif physical > g["balls_in_play"]:
+            fails.append({"sig": "more-balls-than-in-play", "what": "world quiet: game.balls_in_play=%d but %d balls are "
+                          "on the playfield / in the plunger" % (g["balls_in_play"], physical)})
+    return fails
+
+
+def nontrivial_game(case, out):
+    fin = out.get("final") or {}
+    g = fin.get("game") or {}
+    return sum(1 for e in g.get("events", []) if e[0] == "ball_save_bs_saving_ball") >= 2
+
+
 def nontrivial_att(case, out):
     return any(it[0] == "P" and it[1].endswith("_ball_eject_failed") for it in out.get("log", []))
 
 
 def describe_att(case):
     t = case["topo"]
-    return "max=%d/%d/%d lock=%d" % (t["att_trough"], t["att_plunger"], t["att_lock"], t.get("lock_k", 0))
+    return "%s max=%d/%d/%d lock=%d" % (case.get("profile"), t["att_trough"], t["att_plunger"], t["att_lock"],
+                                        t.get("lock_k", 0))
 
 
 HDR_ROUTE = "From C05 Require Import Model.\nDefinition run := route_run.\nDefinition out_eqb := route_out_eqb.\n"
@@ -431,5 +491,7 @@ SUITES = [
     Suite("routing", gen_route, run_route, HDR_ROUTE, coq_route, oracle_route, shrink_route, nontrivial_route,
           {"quick": 3000, "thorough": 60000}, shard=500),
     Suite("attempts", gen_att, run_att, HDR_ATT, coq_att, oracle_att, bc.shrink_case, nontrivial_att,
-          {"quick": 200, "thorough": 5000}, describe=describe_att, shard=40, case_timeout=120),
+          {"quick": 220, "thorough": 5000}, describe=describe_att, shard=40, case_timeout=120),
+    Suite("game", gen_game, run_att, HDR_ATT, coq_att, oracle_game, bc.shrink_case, nontrivial_game,
+          {"quick": 60, "thorough": 1500}, describe=describe_att, shard=30, case_timeout=120),
 ]
